@@ -327,28 +327,31 @@ def check_program(sess: Session, src: str, calls: list[tuple[str, list[Any]]], r
 
 
 def search_witnesses(ctx: Ctx) -> SearchResult:
-	"""corpus/C03/*witness*.json: the concrete witnesses of the `_counterexample` theorems and of every understood failing input
-	class, each in a fresh session (deterministic: the same KNOWN-FINDING / VIOLATION lines for every seed)"""
-	res = SearchResult('defect witnesses (corpus): real type_of vs CPython run-time type, one fresh session each')
+	"""corpus/C03/*.json with a "witness": regression cases of the repaired defects (must pass: any finding is a violation under the
+	old key, which known_findings lists as fixed) and the witnesses of the two known findings; each in a fresh session, plus once
+	all together in one session in reverse order (history)"""
+	res = SearchResult('corpus regression cases / known-finding witnesses: real type_of vs CPython run-time type')
 	d = os.path.join(common.CORPUS_DIR, PROP)
+	recs = []
 	for fn in sorted(os.listdir(d)) if os.path.isdir(d) else []:
-		if not fn.endswith('.json'):
-			continue
-		with open(os.path.join(d, fn), encoding='utf-8') as f:
-			rec = json.load(f)
-		w = rec.get('witness')
-		if not w:
-			continue
-		calls = [(c[0], [tuple(a) if w.get('tuple_args') and isinstance(a, list) else a for a in c[1]]) for c in w['calls']]
-		before = len(res.findings)
-		check_program(Session(ctx), w['program'], calls, res, fn, 'witness')
-		got = sorted({f.key for f in res.findings[before:]})
-		res.histogram[f"witness:{w.get('expect_key')}:{'reproduced' if w.get('expect_key') in got else 'NOT-reproduced'}"] = 1
-		for k in got:
-			if k != w.get('expect_key'):
-				res.histogram[f'witness-other:{k}'] = 1
-	res.distinct = res.cases
-	res.note = 'a witness that is no longer reproduced means the defect was repaired (the model and the corpus then need the repaired behaviour)'
+		if fn.endswith('.json'):
+			with open(os.path.join(d, fn), encoding='utf-8') as f:
+				rec = json.load(f)
+			if rec.get('witness'):
+				recs.append((fn, rec['witness']))
+	shared = Session(ctx)
+	for fresh, items in ((True, recs), (False, list(reversed(recs)))):
+		for fn, w in items:
+			calls = [(c[0], [tuple(a) if w.get('tuple_args') and isinstance(a, list) else a for a in c[1]]) for c in w['calls']]
+			before = len(res.findings)
+			check_program(Session(ctx) if fresh else shared, w['program'], calls, res, fn, 'witness')
+			got = sorted({f.key for f in res.findings[before:]})
+			name = w.get('regression_of') or w.get('expect_key')
+			if w.get('expect') == 'pass':
+				res.histogram[f"regression:{name}:{'pass' if not got else 'FAIL ' + ','.join(got)}"] = 1
+			else:
+				res.histogram[f"known:{name}:{'reproduced' if name in got else 'NOT-reproduced'}"] = 1
+	res.distinct = len(recs)
 	return res
 
 
@@ -360,11 +363,10 @@ def search_exprs(ctx: Ctx) -> SearchResult:
 	n_sessions = ctx.scale(2, 8)
 	for si in range(n_sessions):
 		sess = Session(ctx)
-		budget = {'hetero': 1}
 		for pi in range(ctx.scale(10, 40)):
 			fns = []
 			for i in range(8):
-				g = X.Gen(rng, SEARCH_ENV, 'search', session=budget)
+				g = X.Gen(rng, SEARCH_ENV, 'search')
 				t = g.pick_ty(2) if rng.random() < 0.8 else ('list', ('opt', X.INT))
 				fns.append(g.expr(t, rng.randint(1, 4)).text)
 			src = ''.join(X.header(SEARCH_ENV).replace('def f(', f'def f{i}(') + f'\tv = {e}\n\n' for i, e in enumerate(fns))
@@ -412,7 +414,7 @@ def search_typed_programs(ctx: Ctx) -> SearchResult:
 	for pi in range(ctx.scale(25, 250)):
 		if pi % 40 == 39:
 			sess = Session(ctx)
-		src, entry, args, hist = c03_progs.generate(random.Random(rng.random()), allow_hetero=(pi % 40 == 7))
+		src, entry, args, hist = c03_progs.generate(random.Random(rng.random()), allow_hetero=rng.random() < 0.7)
 		for k, v in hist.items():
 			res.histogram[f'feature:{k}'] = res.histogram.get(f'feature:{k}', 0) + v
 		seen.add(src)
